@@ -341,6 +341,7 @@ class C04(PropBase):
     trusted_base = [
         "Coq 8.16.1 kernel (vm_compute only in the non-vacuity Examples)",
         "walker model C05/Model.v (hand-written, correspondence-checked) and the stack builders of C04/Model.v",
+        "c04_recovers_chain_attributed: C08's range-map model / C11's symbolize model and their theorems (module_at_covers, func_sound), checked at C08 / C11",
         "the CFI / mixed theorems are about the abstract *correct* oracles cfi_correct / mix_cfi_correct and about cfi_rules, a hand-written evaluator of one rule family over an abstract rule table (compared with the code only through the Coq-built layouts: its computed walk = the chain = the real walker's frames); parsing and evaluation of real STACK CFI text is C06's",
         "extraction: ExtrOcamlBasic only; ocaml/zconv.ml + ocaml/c04/main.ml; harness/src/bin/c05.rs",
     ]
@@ -359,8 +360,11 @@ class C04(PropBase):
                 "registers carried through CFI frames — and the walk stops at the generated end; c04_recovers_chain_rules — the same with the CFI frames evaluated by cfi_rules, the evaluator of the rule "
                 "family `.cfa: sp N + .ra: .cfa pw - ^` (sp validity, u64 wrapping, the read of the return address, register-width checks), under the "
                 "boolean rules_ok (each CFI frame's callee covered by a record with N = the frame size, each scan frame's callee by none); "
-                "c04_recovers_chain_reached — for any oracle agreeing with the correct one on the frames the walk reaches; c04_callee_saved pins the "
-                "forwarded register sets; c04_recovers_chain_partial_scan / _cfi / _cfi_any / _fp — one technique per walk (scan incl. mips32, "
+                "c04_recovers_chain_reached — for any oracle agreeing with the correct one on the frames the walk reaches; "
+                "c04_recovers_chain_attributed — the recovered chain call by call: lookup address ra - adj, return address, technique label, and the "
+                "module (C08's range map over the module list) and function (C11's model of fill_symbol on any well-formed symbol file) attached to "
+                "the frame cover that lookup address; c04_callee_saved pins the forwarded register sets, c04_fp_forwarded_by_name the state of "
+                "F-C04a in the regenerated constants; c04_recovers_chain_partial_scan / _cfi / _cfi_any / _fp — one technique per walk (scan incl. mips32, "
                 "CFI, frame-pointer chains for x86, amd64 with/without the Windows slack scan, arm/iOS, arm64); c04_constants pins the documented "
                 "windows / slack. Known finding F-C04a (arm64/arm: x29/r11 not forwarded through a CFI frame behind a frame-pointer frame; witness in "
                 "corpus/C04, c04_fp_behind_cfi_known_witness) is excluded by the precondition. STACK WIN and real STACK CFI text are covered by the "
@@ -373,7 +377,8 @@ class C04(PropBase):
                 "depth are proved at C07 (c07_fpo_recovers_chain, on C07's model of walk_stack's loop with the translated from_ctx_and_args derivation); "
                 "frame-data programs, allocates_base_pointer = 1, mixes with STACK CFI and with scanned frames are covered by the run (d, e, f) through "
                 "the whole symbol-file model (C09 grammar + C07 evaluation inside C05's walker). "
-                "Function names not observed (C11). Trusted: Coq kernel, hand-written walker model (correspondence-checked), extraction + glue.",
+                "Function names: c04_recovers_chain_attributed is about C11's model of fill_symbol (C11's func_sound, C05's function_covers), the "
+                "run of C04 observes the module index only. Trusted: Coq kernel, hand-written walker model (correspondence-checked), extraction + glue.",
     }
     assumptions = ["stack memory little-endian; symbol provider = breakpad Symbolizer over string symbol files",
                    "CFI evaluation abstract in the theorem (correct oracle); concrete rule family `.cfa: SP N + .ra: .cfa w - ^` in the run",
